@@ -695,6 +695,11 @@ class Phase(Angle):
             cycles), otherwise `~astropyy.units.Quantity` or `~numpy.ndarray`
             as appropriate.
         """
+        # Array containers that wrap their results themselves (e.g. signals)
+        # get to handle the operation, as they do for any other Quantity.
+        if any(isinstance(x, np.lib.mixins.NDArrayOperatorsMixin) for x in inputs):
+            return NotImplemented
+
         # Do *not* use inputs.index(self) since that will use __eq__
         for i_self, input_ in enumerate(inputs):
             if input_ is self:
